@@ -1,0 +1,20 @@
+//! Verification hook (cargo feature `verif`): entry counts of every map of this index.
+//! The exhaustive destructuring makes a new field break this build until it is accounted for.
+use super::LuaOperatorIndex;
+
+impl LuaOperatorIndex {
+    pub fn verif_report(&self) -> Vec<(&'static str, usize)> {
+        let Self {
+            operators,
+            type_operators_map,
+            in_filed_operator_map,
+        } = self;
+        vec![
+            ("operator.operators", operators.len()),
+            ("operator.type_operators_map", type_operators_map.len()),
+            ("operator.type_operators_map.items", type_operators_map.values().map(|m| m.values().map(|v| v.len()).sum::<usize>()).sum()),
+            ("operator.in_filed_operator_map", in_filed_operator_map.len()),
+            ("operator.in_filed_operator_map.items", in_filed_operator_map.values().map(|v| v.len()).sum()),
+        ]
+    }
+}
